@@ -193,6 +193,25 @@ def run_case(case):
                 bump('cast-of-out-of-range-floats')
             ch_['cast_dtype'] = {'$dtype': r.choice(['uint32', 'uint32', 'int32', 'uint16', 'int16']), 'as': 'type'}
             bump('cast-of-special-values')
+            single_ = case['index'] % 3 == 0
+            if single_:
+                # NaN (undefined under an integer cast, and neither below nor above any bound) at the start, inside and at the
+                # end of the column; target uint32
+                v_ = [float(j + 1) for j in range(n_)]
+                for j in (1, n_ // 2, n_ - 1):
+                    v_[j] = float('nan')
+                import numpy as _np
+                ch_['data'] = {'dtype': '<f8', 'shape': [n_], 'layout': 'C',
+                               'fill': {'kind': 'seq', 'values': [0] * n_, 'bits': [int(x) for x in _np.array(v_, dtype='<f8').view('u8')]}}
+                ch_['cast_dtype'] = {'$dtype': 'uint32', 'as': 'type'}
+                bump('cast-of-nan-to-uint32')
+            if single_ or r.random() < 0.4:
+                # a frame of this ONE channel: its column is cast into a contiguous destination (numpy's vectorised loops)
+                ci_ = max(i for i, o in enumerate(sp['ops']) if o['op'] == 'channel')
+                for o in sp['ops']:
+                    if o['op'] == 'frame' and any(c_['$ref'] == ci_ for c_ in o['attrs']['channels']['$tuple']):
+                        o['attrs']['channels']['$tuple'] = [{'$ref': ci_}]
+                bump('cast-of-special-values-single-channel-frame')
         rows = [o for o in sp['ops'] if o['op'] == 'channel'][0]['data']['shape'][0]
         full_rows = rows
         if rows > 2 and r.random() < 0.5:
